@@ -1242,4 +1242,30 @@ theorem eqR_not_transitive :
   ⟨⟨mkRemoteStation 5 [12], some (mkLocalStation [1])⟩, ⟨mkRemoteStation 5 [12], none⟩,
    ⟨mkRemoteStation 5 [12], some (mkLocalStation [3])⟩, by decide, by decide, by decide⟩
 
+/-! ## ints and addresses in one table (wave 5) -/
+
+/-- an address key never equals an integer key: tables that hold device
+    instances and addresses side by side (`DeviceInfoCache.cache`) keep them apart -/
+theorem mixed_keys_distinct (a : Addr) (n : Int) : keyOfAddr a ≠ keyOfInt n := by
+  intro h; cases h
+
+/-- among addresses the key is exactly `==` -/
+theorem addr_keys_eq_iff (a b : Addr) : keyOfAddr a = keyOfAddr b ↔ addrEq a b = true := by
+  constructor
+  · intro h
+    have : hashKey a = hashKey b := by
+      simp only [keyOfAddr, PyKey.addr.injEq] at h; exact h
+    exact hash_eq a b this
+  · intro h; simp [keyOfAddr, eq_hash a b h]
+
+/-- `==` alone would NOT keep them apart: the coercion in `__eq__` makes
+    station n equal to the int n for every n in 0..255 — the separation rests on the hash -/
+theorem coerced_eq_true (n : Int) (h0 : 0 ≤ n) (h1 : n < 256) :
+    addrEqInt (mkLocalStation [UInt8.ofNat n.toNat]) n = .ok true := by
+  have : ¬ (n < 0 ∨ n ≥ 256) := by omega
+  simp [addrEqInt, ofInt, this, addrEq, mkLocalStation]
+
+example : addrEqInt (mkLocalStation [5]) 5 = .ok true ∧ keyOfAddr (mkLocalStation [5]) ≠ keyOfInt 5 := by
+  decide
+
 end BacVerif.C18
